@@ -42,7 +42,8 @@ PROBES = ['kind:smtp', 'kind:lmtp', 'kind:mx', 'kind:pipe', 'kind:pipe1',
           'dns-a-fallback-error',
           'no-domain', 'lmtp-per-rcpt-failure', 'http-no-reply-header',
           'http-response-body', 'data-354-without-recipients',
-          'server-closed-idle-connection', '8bit-without-8bitmime']
+          'server-closed-idle-connection', '8bit-without-8bitmime',
+          'lmtp-eod-failure-then-rset-failure']
 STATES_MEASURE = 'distinct (relay kind, fault stage, fault behaviour, pipelining) tuples'
 STEP_CAP = 300000
 SMTP_STAGES = ['connect', 'banner', 'ehlo', 'mail', 'rcpt', 'rcpt', 'data',
@@ -192,6 +193,13 @@ def generate(seed, tier='quick'):
                     if b in ('4xx', '5xx'):
                         expect = {'per': {rcpts[idx]: _cls(b)}, 'rest': 'ok'} \
                             if nr > 1 else {'whole-or-per': _cls(b)}
+                        if rng.random() < 0.3:
+                            # ... and the RSET that follows a failed
+                            # transaction fails too: the per-recipient
+                            # outcomes stand as the server gave them
+                            txs['rset'] = [_act(rng.choice(
+                                ['disconnect', 'rst', 'stall']), rng)]
+                            att['rset_fails_too'] = True
                     else:
                         # replies before the fault were positive acceptances
                         expect = None
@@ -560,6 +568,8 @@ def execute(scn, debug=False):
                 world.probe('lmtp-per-rcpt-failure')
             if att['behav'] == 'no-header':
                 world.probe('http-no-reply-header')
+            if att.get('rset_fails_too'):
+                world.probe('lmtp-eod-failure-then-rset-failure')
             if att.get('data_354_anyway'):
                 world.probe('data-354-without-recipients')
         if ds.listener is not None:
